@@ -182,15 +182,17 @@ pub struct Scripted {
     event: Option<String>,
     is_async: bool,
     started: bool,
+    sched: Arc<Sched>,
 }
 
 impl Scripted {
-    fn new(label: String, event: String, is_async: bool) -> Self {
+    fn new(sched: &Arc<Sched>, label: String, event: String, is_async: bool) -> Self {
         Scripted {
             label,
             event: Some(event),
             is_async,
             started: false,
+            sched: sched.clone(),
         }
     }
     /// Ok(true) = ok, Ok(false) = err, Err(()) = pending
@@ -204,7 +206,13 @@ impl Scripted {
                     }
                     c.sched.yield_at(c.op, &self.label, false, self.is_async)
                 }
-                None => Outcome::Ok,
+                None => {
+                    // called outside any scheduled operation: still goes on record
+                    if let Some(e) = self.event.take() {
+                        self.sched.event(e);
+                    }
+                    Outcome::Ok
+                }
             }
         } else {
             sched::take_next().unwrap_or(Outcome::Pending)
@@ -246,7 +254,7 @@ impl Manager for Mgr {
         let truth = self.truth.clone();
         let sched = self.sched.clone();
         async move {
-            let ok = Scripted::new("create".into(), format!("create({})", cur_op()), true).await;
+            let ok = Scripted::new(&sched, "create".into(), format!("create({})", cur_op()), true).await;
             if ok {
                 Ok(Tracked::new(&truth, &sched))
             } else {
@@ -265,7 +273,7 @@ impl Manager for Mgr {
         let sched = self.sched.clone();
         async move {
             let ev = format!("recycle({},0,{})", cur_op(), show_obj(&sched, id, &m));
-            let ok = Scripted::new("recycle".into(), ev, true).await;
+            let ok = Scripted::new(&sched, "recycle".into(), ev, true).await;
             if ok {
                 Ok(())
             } else {
@@ -284,7 +292,7 @@ fn make_hook(sched: &Arc<Sched>, name: &'static str, k: usize, is_async: bool) -
     if is_async {
         Hook::async_fn(move |obj: &mut Tracked, m: &Metrics| {
             let ev = format!("{}({},{},{})", name, cur_op(), k, show_obj(&sched, obj.id, m));
-            let fut = Scripted::new(format!("{}[{}]", name, k), ev, true);
+            let fut = Scripted::new(&sched, format!("{}[{}]", name, k), ev, true);
             Box::pin(async move {
                 if fut.await {
                     Ok(())
@@ -296,7 +304,7 @@ fn make_hook(sched: &Arc<Sched>, name: &'static str, k: usize, is_async: bool) -
     } else {
         Hook::sync_fn(move |obj: &mut Tracked, m: &Metrics| {
             let ev = format!("{}({},{},{})", name, cur_op(), k, show_obj(&sched, obj.id, m));
-            let mut s = Scripted::new(format!("{}[{}]", name, k), ev, false);
+            let mut s = Scripted::new(&sched, format!("{}[{}]", name, k), ev, false);
             match s.decide() {
                 Ok(true) => Ok(()),
                 Ok(false) => Err(HookError::message("scripted")),
